@@ -1384,6 +1384,57 @@ impl<'p, C: SimCfg> World<'p, C> {
             }
         }
         self.check_timesync(i);
+        self.observe_readonly(i);
+    }
+
+    /// The read-only part of the API may be called at any moment and for any handle: every 16th
+    /// tick of a peer asks for the statistics of every handle (players and spectators, connected
+    /// or long gone) and for the handle lists. Nothing here may panic, a local player has no
+    /// statistics, and the handle lists never change.
+    fn observe_readonly(&mut self, i: usize) {
+        if !self.viol.is_empty() || self.fatal || self.nodes[i].tick_no % 16 != 5 {
+            return;
+        }
+        let np = self.plan.cfg.num_players;
+        let n_spec = self.plan.nodes.iter().filter(|n| matches!(n.kind, NodeKind::Spectator { host, .. } if host == i)).count();
+        let locals = self.nodes[i].locals.clone();
+        self.enter(i);
+        ggrs::verif::set_clock_bump_micros(0);
+        let r = {
+            let Sess::Peer(s) = &self.nodes[i].sess else { return };
+            guarded(|| {
+                let mut bad: Option<String> = None;
+                for hnd in 0..np + n_spec + 1 {
+                    let st = s.network_stats(hnd);
+                    let is_local = locals.contains(&hnd);
+                    let known = hnd < np + n_spec;
+                    if (is_local || !known) && !matches!(st, Err(GgrsError::InvalidRequest { .. })) {
+                        bad = Some(format!("network_stats({hnd}) for a {} handle returned {st:?}", if is_local { "local" } else { "unknown" }));
+                    }
+                    if known && !is_local && matches!(st, Err(GgrsError::InvalidRequest { .. })) {
+                        bad = Some(format!("network_stats({hnd}) for a registered remote handle returned {st:?}"));
+                    }
+                }
+                let mut l = s.local_player_handles();
+                l.sort();
+                let mut want = locals.clone();
+                want.sort();
+                if l != want || s.remote_player_handles().len() != np - locals.len() || s.spectator_handles().len() != n_spec || s.num_players() != np || s.num_spectators() != n_spec {
+                    bad = Some(format!("handle lists changed: local {:?}, remote {:?}, spectators {:?}", s.local_player_handles(), s.remote_player_handles(), s.spectator_handles()));
+                }
+                bad
+            })
+        };
+        self.leave(i);
+        *self.probes.extra.entry("readonly_api_observations").or_insert(0) += 1;
+        match r {
+            Err(p) => self.panic_violation(i, "a read-only call (network_stats / handle lists)", p),
+            Ok(Some(t)) => {
+                let g = self.nodes[i].game.g;
+                self.violate("c16.readonly_api", i, g, format!("node {i}: {t}"));
+            }
+            Ok(None) => {}
+        }
     }
 
     /// C15: frames_ahead(), WaitRecommendation and network_stats() against the known lead and
